@@ -139,7 +139,17 @@ func runD06(t *testing.T, c d06Cell) {
 	id := c.id()
 	rep.Begin("C06", id)
 	uid := uniqueID("y")
-	sc := &dScenario{ID: uid, Target: "Thing", Kinds: []dKind{{Kind: c.Kind, Method: c.Method}}}
+	// a second attachment rule without any update strategy (no attachment of that kind exists): the
+	// strategy of a rule does not depend on its neighbours, listed before ("alive" cells) or after it
+	other := dKind{Kind: "Widget", Method: "<nil>"}
+	if c.Kind == "Widget" {
+		other.Kind = "ConfigMap"
+	}
+	kinds := []dKind{other, {Kind: c.Kind, Method: c.Method}}
+	if c.State != "alive" {
+		kinds = []dKind{{Kind: c.Kind, Method: c.Method}, other}
+	}
+	sc := &dScenario{ID: uid, Target: "Thing", Kinds: kinds}
 	tk := dKid{Kind: c.Kind, Name: "target-" + uid, Value: "v1"}
 	sc.Kids = []dKid{tk}
 	r := prepareD(sc)
